@@ -228,7 +228,7 @@ def check_entry_moves_whole(P, ctx, rule='C17.entry-moves-whole'):
                         lp = l
                 except loops.NoEval:
                     pass
-        ok = ok and lp is not None and ir.top_nocast(a1[1][2]) == lp['iv'] and loops.step_on_every_iteration(g, lp)
+        ok = ok and lp is not None and ir.top_nocast(a1[1][2]) == lp['iv'] and loops.step_on_every_iteration(g, lp) and loops.sole_exit(g, lp)
         occ = [x for x in g.live() if x['kind'] == 'cond' and x is not (lp or {}).get('cond_node') and util.mentions_field(x['expr'], 'hash')]
         ok = ok and len(occ) == 1 and g.must_pass(n['id'], through_edges=[(occ[0]['id'], ir.canon(occ[0]['expr'])[1] == '!=')])
         tgt = [v for v, l_ in occ[0]['succ'] if l_ == (ir.canon(occ[0]['expr'])[1] == '!=')] if len(occ) == 1 else []
@@ -368,6 +368,33 @@ def check_pending_trust(P, ctx):
     ctx.floor(rule, 1)
 
 
+def check_mem_asks_table(P, ctx):
+    """mem(gc, p) is answered by the registry lookup for every p a registration could have stored: the only words it may reject
+    without looking are those outside [minptr, maxptr] (GC_Set keeps these bounds) and any p while the table has no slots.  A
+    rejection by alignment, for instance, is wrong: GC_Set registers whatever address an Alloc instance hands out."""
+    rule = 'C17.mem-asks-the-table'
+    fn = P.fn(P.slot('GC', 'Get', 'mem'))
+    g = P.cfg(fn)
+    ctx.fn(fn)
+    N = util.Norm(P, fn, expand_locals=True, inline=False)
+    look = [n['id'] for n in g.live() if n['expr'] is not None and any(ir.callee_name(c) in ('GC_Mem_Ptr', 'GC_Hash') for c in ir.calls(n['expr']))]
+    bad = None
+    if not look:
+        bad = 'no registry lookup found'
+    else:
+        for pv in (8, 16, 17, 20, 24, 63, 64, 72, 0):
+            env = {('param', 1): pv, ('arrow', ('param', 0), 'minptr'): 16, ('arrow', ('param', 0), 'maxptr'): 64, ('arrow', ('param', 0), 'nslots'): 11}
+            why, node, env2 = util.walk_eval(g, N, env, stop=look, max_steps=40, unsigned=True)
+            if why == 'stop':
+                continue
+            if why == 'ret' and (pv < 16 or pv > 64):
+                continue
+            bad = 'with registered addresses in [16, 64] and a non-empty table, mem of the word %d is answered without looking it up (%s at %s)' % (pv, why, g.describe(node))
+            break
+    ctx.check(bad is None, rule, fn['name'], site(fn), 'membership is decided by the table lookup for every address inside the registered range', [bad] if bad else None)
+    ctx.floor(rule, 1)
+
+
 def run(ctx, load):
     P = load(UNITS, 'default')
     ctx.stats['units'] = set(UNITS)
@@ -395,6 +422,7 @@ def run(ctx, load):
     ctx.floors.pop(('C06.sweep-once', ctx.config), None)
     ctx.floor('C17.sweep-compaction', 6)
     check_pending_trust(P, ctx)
+    check_mem_asks_table(P, ctx)
     from .rules_c06 import check_finalise_unregisters
     check_finalise_unregisters(P, ctx, 'C17.finalised-not-registered')
 
